@@ -16,6 +16,7 @@ mod k_mesh;
 mod k_iter;
 mod k_roots;
 mod k_cfun;
+mod k_guards;
 mod fnast;
 
 use std::io::{BufRead, Write};
@@ -59,6 +60,7 @@ fn dispatch(elt: &str, kind: &str, a: &mut Args, out: &mut Out) {
         // f64-only families
         "it" => k_iter::run(kind, a, out),        // iterative sparse solvers (C08, C09)
         "roots" => k_roots::run(elt, kind, a, out),   // Polynomial::roots (C10), elt = f64 | cplx
+        "guard" => k_guards::run_kind(kind, a, out),   // C20: checked entry points on explicit size tuples
         "cf" => k_cfun::run(kind, a, out),        // Complex<f64> elementary/trig/hyperbolic functions (C14)
         _ => panic!("harness: unknown family/elt {} {}", kind, elt),
     }
